@@ -57,7 +57,22 @@ def main():
                                       ntraces=3 if quick else 20, length=80 if quick else 300,
                                       seed=ck.seed * 1000 + 500 + len(hplan), structure=True))
     tracecheck.run_histories(ck, hplan)
+    # 4. histories under a database: the tree lives in the stand-in data manager, is committed and evicted (whole cache
+    #    or single nodes) between the calls, growth phases with commit + sweep pairs - the structure after every call
+    #    must be the one Persist predicts (TraceEvict), which is sound for the design; damage explained by the recorded
+    #    inline-leaf finding D18 is attributed by the specification
+    from harness.checks.c05 import validate_evict
+    from harness import jobs
+    eplan = []
+    for fam in (['II', 'OO'] if quick else ['II', 'OO', 'LF', 'fs', 'OI', 'QQ']):
+        for is_set in (True, False):
+            for (lf, it) in ((2, 2), (2, 3), (3, 2)):
+                eplan.append(dict(fam=fam, impl='c', is_set=is_set, leaf=lf, internal=it, nkeys=15, grow=True,
+                                  ntraces=10 if quick else 120, length=50 if quick else 90,
+                                  seed=ck.seed * 100000 + 3000 + len(eplan), emb='mid'))
+    validate_evict(ck, jobs.run_jobs('harness.workers.evict_worker', eplan, pure=True))
     ck.assumptions += ['node sizes >= 2, set on the classes before first use',
+                       'the database histories use the stand-in data manager (harness/minijar.py)',
                        'model keys embedded order-preservingly (harness/embed.py)']
     ck.finish(exhaustive=not quick)
 
